@@ -22,6 +22,20 @@
 #include <unordered_map>
 #include <list>
 
+// Verification hooks. They expand to nothing unless EVENTPP_VERIF is defined.
+// With EVENTPP_VERIF the embedding program must define the two functions below;
+// a controlled scheduler uses them as preemption points at deliberate unlocked
+// reads and inside critical sections.
+#ifdef EVENTPP_VERIF
+extern "C" void eventpp_verif_point(const char * tag, const void * object);
+extern "C" void eventpp_verif_spin(const char * tag, const void * object);
+#define EVENTPP_VERIF_POINT(tag, object) eventpp_verif_point(tag, object)
+#define EVENTPP_VERIF_SPIN(tag, object) eventpp_verif_spin(tag, object)
+#else
+#define EVENTPP_VERIF_POINT(tag, object) ((void)0)
+#define EVENTPP_VERIF_SPIN(tag, object) ((void)0)
+#endif
+
 namespace eventpp {
 
 struct TagHomo {};
@@ -38,11 +52,15 @@ struct SpinLock
 {
 public:
 	void lock() {
+		EVENTPP_VERIF_POINT("spinlock.lock", this);
 		while(locked.test_and_set(std::memory_order_acquire)) {
+			EVENTPP_VERIF_SPIN("spinlock.spin", this);
 		}
+		EVENTPP_VERIF_POINT("spinlock.acquired", this);
 	}
 
 	void unlock() {
+		EVENTPP_VERIF_POINT("spinlock.unlock", this);
 		locked.clear(std::memory_order_release);
 	}
 	
